@@ -89,11 +89,16 @@ where
         if self.is_aborted() {
             match self.abort_reason.get() {
                 Some(AbortReason::FatalEvmError(txid)) => {
+                    // The abort reason only names the transaction; its result slot may have been
+                    // overwritten by a re-execution that raced with the abort. A validation error
+                    // found there is not the fatal error that was recorded and must never be
+                    // returned as a block error: invalid transactions are skipped.
                     let error = self.tx_results.get(*txid).and_then(|result| {
                         result
                             .lock()
                             .as_ref()
                             .and_then(|result| result.execute_result.as_ref().err().cloned())
+                            .filter(|error| !matches!(error, EVMError::Transaction(_)))
                     });
                     if let Some(error) = error {
                         return Err(GrevmError { txid: *txid, error });
